@@ -656,6 +656,7 @@ struct Gen {
     phase: u8, // 0 = in-round ops, 1 = newepoch due
     setup: Vec<String>,
     scen_round: u64, // last round in which the failing-aggregation scenario was injected
+    bond_edge_round: u64, // last round in which the boundary-bond scenario was injected
 }
 
 impl Feeflow {
@@ -1417,6 +1418,7 @@ impl Engine for Feeflow {
                 phase: 0,
                 setup: vec![],
                 scen_round: u64::MAX,
+                bond_edge_round: u64::MAX,
             };
             // routes registered at the start (as ops, so that the model follows)
             for a in 0..2 {
@@ -1500,6 +1502,17 @@ impl Feeflow {
                 return Some(first);
             }
             let next_start = if n_epochs == 0 { self.g.genesis } else { last.eps[0].start + DAY };
+            // a bond right at / just after the nominal start of the epoch that has not been created yet
+            // (0 ns .. 1 s + 1 ns late): the lair must refuse it once the current epoch has expired,
+            // otherwise the address counts as bonded before an epoch that started before it bonded
+            if n_epochs >= 1 && self.g.bond_edge_round != self.g.round && self.g.t <= next_start && rng.chance(1, 3) {
+                self.g.bond_edge_round = self.g.round;
+                let delta = *rng.pick(&[0u64, 1, 500_000_000, 999_999_999, 1_000_000_000, 1_000_000_001]);
+                self.g.t = next_start + delta;
+                let fresh: Vec<u64> = (0..4u64).filter(|i| w.bond_start[*i as usize].is_none()).collect();
+                let u = if !fresh.is_empty() && rng.chance(4, 5) { *rng.pick(&fresh) } else { rng.below(4) };
+                return Some(format!("u{u} bond {} {}", rng.below(2), 1_000 + rng.below(1_000_000)));
+            }
             // early attempt just before the boundary
             if rng.chance(1, 8) && self.g.t < next_start - 1 {
                 self.g.t = next_start - 1;
